@@ -40,6 +40,7 @@ import (
 	"time"
 
 	"go.step.sm/crypto/jose"
+	"go.step.sm/crypto/minica"
 	"go.step.sm/crypto/x509util"
 
 	"github.com/smallstep/certificates/api"
@@ -53,15 +54,18 @@ type Case struct {
 	Op     string         `json:"op"`  // renew | rekey
 	Key    string         `json:"key"` // ec256 | ec384 | rsa | ed25519
 	NewKey string         `json:"newkey,omitempty"`
-	Dur    string         `json:"dur,omitempty"` // "" (default 24h) | "backdate" | "short" | "long"
-	API    bool           `json:"api,omitempty"` // go through the HTTP handlers api.Renew / api.Rekey (TLS peer certificate)
+	Dur    string         `json:"dur,omitempty"`   // "" (default 24h) | "backdate" | "short" | "long"
+	API    bool           `json:"api,omitempty"`   // go through the HTTP handlers api.Renew / api.Rekey (TLS peer certificate)
+	Rot    bool           `json:"rot,omitempty"`   // renew on an authority whose intermediate was rotated (same root, other key)
+	Again  string         `json:"again,omitempty"` // "" | renew | rekey: a second step on the result of the first
 	Tpl    map[string]any `json:"tpl"`
 }
 
 const provName = "tpl"
 
 type world struct {
-	ca      *fixture.CA
+	ca      *fixture.CA // issues, and renews unless the case says "rot"
+	ca2     *fixture.CA // same root, rotated intermediate, own database
 	prov    *provisioner.JWK
 	provKey *jose.JSONWebKey
 	rsaPool []*rsa.PrivateKey
@@ -84,7 +88,13 @@ func newWorld() *world {
 			DefaultTLSDur: &provisioner.Duration{Duration: 24 * time.Hour},
 		},
 		Options: &provisioner.Options{X509: &provisioner.X509Options{}}}
-	w.ca, err = fixture.New(fixture.Opts{Provisioners: provisioner.List{w.prov}})
+	stub1, stub2 := twoIntermediates()
+	w.ca, err = fixture.New(fixture.Opts{From: stub1, Provisioners: provisioner.List{w.prov}})
+	if err != nil {
+		panic(err)
+	}
+	prov2 := &provisioner.JWK{Type: "JWK", Name: provName, Key: &pub, Claims: w.prov.Claims}
+	w.ca2, err = fixture.New(fixture.Opts{From: stub2, Provisioners: provisioner.List{prov2}})
 	if err != nil {
 		panic(err)
 	}
@@ -96,6 +106,41 @@ func newWorld() *world {
 		w.rsaPool = append(w.rsaPool, rk)
 	}
 	return w
+}
+
+// twoIntermediates makes one root with two intermediates (different keys, hence different
+// subject key identifiers): the situation the authority-key-id exception of renewal exists for.
+func twoIntermediates() (*fixture.CA, *fixture.CA) {
+	mk := func(cn string, pathLen int, parent *x509.Certificate, parentKey crypto.Signer) (*x509.Certificate, crypto.Signer) {
+		k, err := ecdsa.GenerateKey(elliptic.P256(), rand.Reader)
+		if err != nil {
+			panic(err)
+		}
+		t := &x509.Certificate{Subject: pkix.Name{CommonName: cn}, NotBefore: time.Now().Add(-24 * time.Hour), NotAfter: time.Now().Add(2400 * time.Hour),
+			KeyUsage: x509.KeyUsageCertSign | x509.KeyUsageCRLSign, BasicConstraintsValid: true, IsCA: true, MaxPathLen: pathLen, MaxPathLenZero: pathLen == 0}
+		signer, p := crypto.Signer(k), t
+		if parent != nil {
+			signer, p = parentKey, parent
+		}
+		c, err := x509util.CreateCertificate(t, p, k.Public(), signer)
+		if err != nil {
+			panic(err)
+		}
+		return c, k
+	}
+	jwk := func() *jose.JSONWebKey {
+		k, err := jose.GenerateJWK("EC", "P-256", "ES256", "sig", "", 0)
+		if err != nil {
+			panic(err)
+		}
+		k.KeyID, _ = jose.Thumbprint(k)
+		return k
+	}
+	root, rootKey := mk("Verif Root CA", 1, nil, nil)
+	i1, k1 := mk("Verif Intermediate CA", 0, root, rootKey)
+	i2, k2 := mk("Verif Intermediate CA", 0, root, rootKey)
+	return &fixture.CA{MiniCA: &minica.CA{Root: root, Intermediate: i1, Signer: k1}, JWK: jwk()},
+		&fixture.CA{MiniCA: &minica.CA{Root: root, Intermediate: i2, Signer: k2}, JWK: jwk()}
 }
 
 func (w *world) key(kind string) crypto.Signer {
@@ -208,7 +253,7 @@ func fieldDiff(a, b *x509.Certificate) string {
 // generatedFor returns the extensions Go's CreateCertificate generates from the parsed fields of
 // `old` alone (no ExtraExtensions) for public key `pub` under the CA's intermediate, plus the
 // subject key identifier x509util derives for `pub`.
-func (w *world) generatedFor(old *x509.Certificate, pub crypto.PublicKey) (string, []byte) {
+func (w *world) generatedFor(ca *fixture.CA, old *x509.Certificate, pub crypto.PublicKey) (string, []byte) {
 	mk := func(full bool) *x509.Certificate {
 		t := &x509.Certificate{SerialNumber: big.NewInt(1), NotBefore: old.NotBefore, NotAfter: old.NotAfter, RawSubject: old.RawSubject}
 		if full {
@@ -226,7 +271,7 @@ func (w *world) generatedFor(old *x509.Certificate, pub crypto.PublicKey) (strin
 		return t
 	}
 	for _, full := range []bool{true, false} {
-		c, err := x509util.CreateCertificate(mk(full), w.ca.MiniCA.Intermediate, pub, w.ca.MiniCA.Signer)
+		c, err := x509util.CreateCertificate(mk(full), ca.MiniCA.Intermediate, pub, ca.MiniCA.Signer)
 		if err == nil {
 			return extsS(c.Extensions), c.SubjectKeyId
 		}
@@ -236,11 +281,13 @@ func (w *world) generatedFor(old *x509.Certificate, pub crypto.PublicKey) (strin
 
 // ---- one case
 
-func (w *world) run(c Case) (line, impl, specLine, specImpl string) {
+type row struct{ line, impl string }
+
+func (w *world) run(c Case) (rows []row) {
 	js, _ := json.Marshal(c)
 	tail := " case=x" + hex.EncodeToString(js)
-	unissued := func(why string) (string, string, string, string) {
-		return "unissued why=" + why + tail, "not-issued", "", ""
+	unissued := func(why string) []row {
+		return []row{{"unissued why=" + why + tail, "not-issued"}}
 	}
 
 	tpl, err := json.Marshal(c.Tpl)
@@ -286,28 +333,49 @@ func (w *world) run(c Case) (line, impl, specLine, specImpl string) {
 	}
 	old := chain[0]
 
+	ca := w.ca
+	if c.Rot {
+		ca = w.ca2
+	}
+	r1, nw := w.step(ca, c.Op, c.NewKey, c.API, old, name, tail)
+	rows = append(rows, r1...)
+	if nw != nil && c.Again != "" {
+		// a second step on the result (histories: certificates produced by renewal are renewed again)
+		r2, _ := w.step(ca, c.Again, "ec256", false, nw, name, tail)
+		rows = append(rows, r2...)
+	}
+	return rows
+}
+
+// step renews or rekeys `old` on `ca` and renders the model input line, the implementation's
+// output, and the property-level line (fidspec).
+func (w *world) step(ca *fixture.CA, op, newKeyKind string, viaAPI bool, old *x509.Certificate, name, tail string) (rows []row, nw *x509.Certificate) {
+	var err error
 	// renew / rekey
 	var pub crypto.PublicKey
 	var newPriv crypto.Signer
 	nkey := "!"
 	target := old.PublicKey
-	if c.Op == "rekey" {
-		npriv := w.key(c.NewKey)
+	if op == "rekey" {
+		npriv := w.key(newKeyKind)
 		for i := 0; i < 4 && reflect.DeepEqual(npriv.Public(), old.PublicKey); i++ {
-			npriv = w.key(c.NewKey) // the RSA pool is small: never rekey to the same key
+			npriv = w.key(newKeyKind) // the RSA pool is small: never rekey to the same key
 		}
 		pub, newPriv = npriv.Public(), npriv
 		spki, err := x509.MarshalPKIXPublicKey(pub)
 		if err != nil {
-			return unissued("newkey")
+			return []row{{"unissued why=newkey" + tail, "not-issued"}}, nil
 		}
 		nkey, target = keyHash(spki), pub
 	}
-	gen, nski := w.generatedFor(old, target)
+	gen, nski := w.generatedFor(ca, old, target)
 	backdate := 60 // fixture default (authority DefaultBackdate = 1m)
-	line = fmt.Sprintf("%s %s key=%s nkey=%s nb=%d na=%d bd=%d exts=%s gen=%s aki=%s nski=%s%s",
-		c.Op, fieldsLine(old), keyHash(old.RawSubjectPublicKeyInfo), nkey, old.NotBefore.Unix(), old.NotAfter.Unix(), backdate,
-		extsS(old.Extensions), gen, common.XB(w.ca.MiniCA.Intermediate.SubjectKeyId), common.XB(nski), tail)
+	// the two clock comparisons DefaultAuthorizeRenew makes (inputs of the gate part of the model)
+	clock := time.Now().Truncate(time.Second)
+	nyv, exp := clock.Before(old.NotBefore), clock.After(old.NotAfter)
+	line := fmt.Sprintf("%s %s key=%s nkey=%s nb=%d na=%d nyv=%s exp=%s bd=%d exts=%s gen=%s aki=%s nski=%s%s",
+		op, fieldsLine(old), keyHash(old.RawSubjectPublicKeyInfo), nkey, old.NotBefore.Unix(), old.NotAfter.Unix(), common.B(nyv), common.B(exp), backdate,
+		extsS(old.Extensions), gen, common.XB(ca.MiniCA.Intermediate.SubjectKeyId), common.XB(nski), tail)
 
 	var nchain []*x509.Certificate
 	t0 := time.Now()
@@ -319,32 +387,41 @@ func (w *world) run(c Case) (line, impl, specLine, specImpl string) {
 			}
 		}()
 		switch {
-		case c.API:
-			nchain, err = w.viaAPI(c.Op, old, name, newPriv)
-		case c.Op == "rekey":
-			nchain, err = w.ca.Auth.Rekey(old, pub)
+		case viaAPI:
+			nchain, err = w.viaAPI(ca, op, old, name, newPriv)
+		case op == "rekey":
+			nchain, err = ca.Auth.Rekey(old, pub)
 		default:
-			nchain, err = w.ca.Auth.Renew(old)
+			nchain, err = ca.Auth.Renew(old)
 		}
 	}()
 	t1 := time.Now()
 	switch {
 	case crashed:
-		return line, "crash", "", ""
+		return []row{{line, "crash"}}, nil
 	case err != nil && strings.Contains(err.Error(), "`lifetime` cannot be 0"):
-		return line, "signerr", "", ""
+		return []row{{line, "signerr"}}, nil
 	case err != nil:
-		return line, "refuse:other", "", ""
+		if os.Getenv("C09_DEBUG") != "" {
+			fmt.Fprintln(os.Stderr, "renew:", err)
+		}
+		switch {
+		case strings.Contains(err.Error(), "certificate expired"):
+			return []row{{line, "refuse:expired"}}, nil
+		case strings.Contains(err.Error(), "not yet valid"):
+			return []row{{line, "refuse:notyetvalid"}}, nil
+		}
+		return []row{{line, "refuse:other"}}, nil
 	case len(nchain) == 0:
-		return line, "issued-nothing", "", ""
+		return []row{{line, "issued-nothing"}}, nil
 	}
-	nw := nchain[0]
+	nw = nchain[0]
 	serial := "new"
 	if nw.SerialNumber.Cmp(old.SerialNumber) == 0 {
 		serial = "same"
 	}
 	sig := "ok"
-	if nw.CheckSignatureFrom(w.ca.MiniCA.Intermediate) != nil || !reflect.DeepEqual(nw.RawIssuer, w.ca.MiniCA.Intermediate.RawSubject) {
+	if nw.CheckSignatureFrom(ca.MiniCA.Intermediate) != nil || !reflect.DeepEqual(nw.RawIssuer, ca.MiniCA.Intermediate.RawSubject) {
 		sig = "bad"
 	}
 	win := "ok"
@@ -358,7 +435,7 @@ func (w *world) run(c Case) (line, impl, specLine, specImpl string) {
 	strip := func(es []pkix.Extension) string {
 		var out []string
 		for _, e := range es {
-			if e.Id.Equal(asn1.ObjectIdentifier{2, 5, 29, 35}) || (c.Op == "rekey" && e.Id.Equal(asn1.ObjectIdentifier{2, 5, 29, 14})) {
+			if e.Id.Equal(asn1.ObjectIdentifier{2, 5, 29, 35}) || (op == "rekey" && e.Id.Equal(asn1.ObjectIdentifier{2, 5, 29, 14})) {
 				continue
 			}
 			out = append(out, extS(e))
@@ -369,7 +446,7 @@ func (w *world) run(c Case) (line, impl, specLine, specImpl string) {
 	if strip(old.Extensions) != strip(nw.Extensions) {
 		keep = "bad"
 	}
-	impl = fmt.Sprintf("issued key=%s subj=%s dur=%d exts=%s fdiff=%s keep=%s serial=%s sig=%s win=%s",
+	impl := fmt.Sprintf("issued key=%s subj=%s dur=%d exts=%s fdiff=%s keep=%s serial=%s sig=%s win=%s",
 		keyHash(nw.RawSubjectPublicKeyInfo), common.XB(nw.RawSubject), int64(nw.NotAfter.Sub(nw.NotBefore)/time.Second),
 		extsS(nw.Extensions), fieldDiff(old, nw), keep, serial, sig, win)
 	// the property itself, independent of the model of the code: which parsed field groups may differ
@@ -379,14 +456,18 @@ func (w *world) run(c Case) (line, impl, specLine, specImpl string) {
 			hasSKI = true
 		}
 	}
-	specLine = fmt.Sprintf("fidspec op=%s hasski=%s%s", c.Op, common.B(hasSKI), tail)
-	specImpl = "fdiff=" + fieldDiff(old, nw)
-	return line, impl, specLine, specImpl
+	specLine := fmt.Sprintf("fidspec op=%s hasski=%s%s", op, common.B(hasSKI), tail)
+	keyOK := "ok" // renew keeps the key, rekey carries exactly the requested one
+	if want, err := x509.MarshalPKIXPublicKey(target); err != nil || !bytes.Equal(want, nw.RawSubjectPublicKeyInfo) {
+		keyOK = "bad"
+	}
+	specImpl := "fdiff=" + fieldDiff(old, nw) + " key=" + keyOK
+	return []row{{line, impl}, {specLine, specImpl}}, nw
 }
 
 // viaAPI calls the HTTP handlers of POST /1.0/renew and /1.0/rekey with `old` as the verified TLS
 // peer certificate and returns the certificate chain of the JSON response.
-func (w *world) viaAPI(op string, old *x509.Certificate, name string, newPriv crypto.Signer) ([]*x509.Certificate, error) {
+func (w *world) viaAPI(ca *fixture.CA, op string, old *x509.Certificate, name string, newPriv crypto.Signer) ([]*x509.Certificate, error) {
 	var body []byte
 	if op == "rekey" {
 		csr, err := fixture.CSRWithKey(name, nil, newPriv)
@@ -397,7 +478,7 @@ func (w *world) viaAPI(op string, old *x509.Certificate, name string, newPriv cr
 	}
 	req := httptest.NewRequest(http.MethodPost, "https://"+fixture.DNSName+"/1.0/"+op, bytes.NewReader(body))
 	req.TLS = &tls.ConnectionState{PeerCertificates: []*x509.Certificate{old}}
-	req = req.WithContext(authority.NewContext(context.Background(), w.ca.Auth))
+	req = req.WithContext(authority.NewContext(context.Background(), ca.Auth))
 	rec := httptest.NewRecorder()
 	if op == "rekey" {
 		api.Rekey(rec, req)
@@ -691,6 +772,11 @@ func fixedCases() []Case {
 		{Op: "renew", Key: "ec256", Tpl: def},
 		{Op: "rekey", Key: "ec256", NewKey: "ec256", Tpl: def},
 		{Op: "renew", Key: "ec256", Tpl: def, API: true},
+		{Op: "renew", Key: "ec256", Tpl: def, Rot: true},
+		{Op: "rekey", Key: "ec256", NewKey: "ec384", Tpl: def, Rot: true, API: true},
+		{Op: "renew", Key: "ec256", Tpl: def, Again: "renew"},
+		{Op: "rekey", Key: "ec256", NewKey: "ec256", Tpl: def, Again: "renew"},
+		{Op: "renew", Key: "ec256", Tpl: def, Again: "rekey", Rot: true},
 		{Op: "rekey", Key: "ec256", NewKey: "ed25519", Tpl: def, API: true},
 		{Op: "rekey", Key: "rsa", NewKey: "ed25519", Tpl: def},
 		{Op: "renew", Key: "ed25519", Tpl: with("extensions", crit)},
@@ -717,6 +803,13 @@ func randomCase(r *common.Rng) Case {
 		c.Op, c.NewKey = "rekey", common.Pick(r, keyKinds)
 	}
 	c.API = r.Chance(1, 3)
+	c.Rot = r.Chance(1, 5)
+	switch r.Intn(8) {
+	case 0:
+		c.Again = "renew"
+	case 1:
+		c.Again = "rekey"
+	}
 	switch r.Intn(20) {
 	case 0:
 		c.Dur = "backdate"
@@ -775,15 +868,14 @@ func main() {
 	}
 	w := newWorld()
 	defer w.ca.Close()
+	defer w.ca2.Close()
 	unissued := 0
 	for _, c := range cases {
-		line, impl, sl, si := w.run(c)
-		if impl == "not-issued" {
-			unissued++
-		}
-		out.Case(line, impl)
-		if sl != "" {
-			out.Case(sl, si)
+		for _, rw := range w.run(c) {
+			if rw.impl == "not-issued" {
+				unissued++
+			}
+			out.Case(rw.line, rw.impl)
 		}
 	}
 	if unissued*4 > len(cases) {
